@@ -35,6 +35,7 @@ KEY_TIE = 'C05:coefficient-tie:sampled-coefficients-not-one-hot'
 KEY_NE16_COUNT = 'C05:ne16_latency:per-channel:float32-channel-count'
 KEY_SIAM = 'C05:layer-reuse:call-sites-on-different-producers'
 KEY_EXCL = 'C05:effective-in-features:excluded-operand'
+KEY_SPLIT = 'C05:layer-reuse:call-sites-in-different-components'
 LT_NAME = {'Conv1d': 'conv1d', 'Conv2d': 'conv2d', 'Linear': 'linear'}
 
 
@@ -120,7 +121,8 @@ def _costfn_real(g):
         static['in_channels'] = g['out']
     fn = getattr(pc, g['name'])[(typ, static)]      # looked up on the static layer, as _create_cost_fn_map does
     t = lambda v: torch.tensor(float(v), dtype=torch.float64)
-    spec = {'_parameters': {'bias': 1 if g['bias'] else None}, 'in_precision': t(g['pin']), 'w_precision': t(g['pw'])}
+    spec = {'_parameters': {'bias': 1 if g['bias'] else None}, 'in_precision': t(g['pin']), 'w_precision': t(g['pw']),
+            'groups': static['groups']}      # vars(layer) always holds it (read by the generic MAC count since 5c5c838)
     if g['lt'] == 3:
         spec.update({'in_features': t(g['in']), 'out_features': g['out']})
     else:
@@ -193,23 +195,32 @@ def _geometry(desc):
 
 def _alive_counts(desc, wbits):
     """alive channels of every instruction's output, from the assignment `summary()` reports
-    (wbits: instruction -> list of per-channel weight bits); independent of the calculators"""
+    (wbits: instruction -> list of per-channel weight bits); independent of the calculators.
+    Channel tensors are tracked as masks, so the alive set of a sum is the UNION of its operands'."""
     ch, sp = mc._shapes(desc)
-    alive = []
+    mask, alive = [], []
     for i, ins in enumerate(desc['prog']):
         op = ins[0]
         if op == 'input':
-            alive.append(desc['C0'])
+            mask.append([True] * desc['C0'])
         elif op in ('conv', 'dw', 'lin', 'reuse'):
-            alive.append(sum(1 for b in wbits[i] if b != 0))
+            mask.append([b != 0 for b in wbits[i]])
         elif op == 'flat':
+            mask.append(None)
             alive.append(alive[ins[1]] * sp[ins[1]] ** desc['dim'])
+            continue
         elif op == 'add':
-            # operands quantized by one shared per-channel quantizer have the same alive set; a dense
-            # operand (the network input) keeps every channel of the sum alive
-            alive.append(max(alive[ins[1]], alive[ins[2]]))
+            ma, mb = mask[ins[1]], mask[ins[2]]
+            mask.append([x or y for x, y in zip(ma, mb)] if ma is not None and mb is not None else None)
+            if mask[-1] is None:
+                alive.append(max(alive[ins[1]], alive[ins[2]]))
+                continue
         else:
-            alive.append(alive[ins[1]])
+            mask.append(mask[ins[1]])
+            if mask[-1] is None:
+                alive.append(alive[ins[1]])
+                continue
+        alive.append(sum(mask[-1]))
     return alive
 
 
@@ -372,7 +383,7 @@ def _run_case(case):
             kind = geo[ii]['kind']
             for e_ in ent:
                 if e_[0] != ex[ii]['alive_in']:
-                    in_key[ii] = (KEY_SIAM if (desc.get('siamese') and (desc['prog'][ii][0] == 'reuse' or any(
+                    in_key[ii] = (KEY_SPLIT if desc.get('split') else KEY_SIAM if (desc.get('siamese') and (desc['prog'][ii][0] == 'reuse' or any(
                         j[0] == 'reuse' and j[2] == ii for j in desc['prog']))) else
                                   KEY_INCOMP if ii in icc else (KEY_LINEAR if kind == 'lin' else 'C05:shown-in-features:%s' % kind))
                     res['fail'].append((in_key[ii], 'layer %s (%s) is shown %s input features under its PyTorch name, %d are alive'
@@ -488,18 +499,21 @@ def _gen_cases(rng, n):
         if probe_in:
             fam, dim = 'pc0', 2
         reuse = (k % 6 == 1) and not probe_in
+        if reuse and (k // 6) % 3 == 2:
+            fam = 'pc0'      # results feeding different sums: per-channel search with pruned channels
         if reuse:
             # one conv module invoked at two resolutions (non-shared metrics are per call site)
             dim = 2
             # ... alternately on tensors of one producer / of two different producers (siamese branches)
-            gen_r = mc.gen_siamese_desc if (k // 6) % 2 else mc.gen_reuse_desc
+            # ... or with its two results feeding different sums (the call sites must share one component)
+            gen_r = (mc.gen_reuse_desc, mc.gen_siamese_desc, mc.gen_split_reuse_desc)[(k // 6) % 3]
             desc = gen_r(rng, couts=(2, 3, 4) if fam == 'pl' else (2, 4, 8))
         else:
             desc = mc.gen_desc(rng, couts=(2, 3, 4) if fam == 'pl' else (2, 4, 8), dim=dim,
                                first=('addin' if k % 20 == 18 else 'dw') if probe_in else ('dw' if (k % 11 == 4 and dim == 2) else None),
                                dw_k=(3,) if ne16 else (1, 3))
         cfg = mc.make_cfg(rng, pc=fam != 'pl', zero=fam == 'pc0', ne16=ne16)
-        if probe_in:
+        if probe_in or desc.get('split'):
             cfg['prune_p'] = 0.5
         if k % 3 == 2 and not probe_in:
             cfg['ties'] = 1      # tie stream: exactly equal top coefficients (selection = first maximum)
@@ -735,7 +749,8 @@ def run(chk):
     chk.rule = ('(a) spec-key table extracted from the source of every class in mps_layer_map; (b) bit-cost functions on '
                 'random integer grids (layer type x depthwise x sizes x precisions); (c) random nets of the C02 grammar '
                 '(every 9th a Conv1d net, every 6th a net in which one conv module is invoked twice: at two resolutions on tensors of '
-                'one producer, or on the outputs of two different producers (siamese branches)) x {per-layer any tuples, per-channel, per-channel with 0-bit and pruned channels} '
+                'one producer, on the outputs of two different producers (siamese branches), or with its two results feeding different '
+                'sums) x {per-layer any tuples, per-channel, per-channel with 0-bit and pruned channels} '
                 'x eval mode / training with hard sampling; every 3rd net draws its coefficients from the tie stream (top-2 / top-3 / '
                 'all-equal / 0-bit-vs-maximum exact ties; reference: first maximum),  widths powers of two in per-channel search so that shares '
                 'are dyadic and every float32 cost below 2^24 is an exact integer; ne16 on nets it applies to (8-bit '
@@ -798,7 +813,7 @@ def run(chk):
                   sample={'prog': case['desc']['prog'], 'family': case['family'], 'wp': cfg['wp'], 'ap': cfg['ap'],
                           'mode': case['mode'], 'cost': r.get('cost')})
         for hk in ('mode:' + case['mode'], 'dim:%d' % case['desc']['dim'], 'ne16:%d' % case['ne16'],
-                   'pruned_layers>0:%d' % int(r.get('pruned_layers', 0) > 0), 'layer-reuse:%d' % int(bool(r.get('reuse'))), 'siamese:%d' % int(bool(case['desc'].get('siamese'))),
+                   'pruned_layers>0:%d' % int(r.get('pruned_layers', 0) > 0), 'layer-reuse:%d' % int(bool(r.get('reuse'))), 'siamese:%d' % int(bool(case['desc'].get('siamese'))), 'split-reuse:%d' % int(bool(case['desc'].get('split'))),
                    'ties:%d' % int(bool(cfg.get('ties')))):
             chk.hist[hk] = chk.hist.get(hk, 0) + 1
         if r.get('big'):
